@@ -334,7 +334,7 @@ pub fn run(tier: &str, seed: u64) -> i32 {
     let d = DArms { max_depth: 2 };
     let budget = Budget {
         max_depth: 2,
-        wall: Duration::from_secs(if thorough { 600 } else { 40 }),
+        wall: Duration::from_secs(if thorough { 600 } else { 150 }),
         max_states: 5_000_000,
     };
     let st = explore(&d, &budget, seed, |s, ctx| {
@@ -356,7 +356,7 @@ pub fn run(tier: &str, seed: u64) -> i32 {
     let g = crate::graph::quick_graph(if thorough { 3 } else { 2 });
     let budget = Budget {
         max_depth: g.max_edges as u32,
-        wall: Duration::from_secs(if thorough { 900 } else { 40 }),
+        wall: Duration::from_secs(if thorough { 900 } else { 150 }),
         max_states: 5_000_000,
     };
     report.add(explore(&g, &budget, seed, |s, ctx| {
@@ -386,7 +386,7 @@ pub fn run(tier: &str, seed: u64) -> i32 {
     let st = sweep(
         "D-chain(polkadot full x settings + 918 single-id closures)",
         &chain,
-        Duration::from_secs(if thorough { 900 } else { 60 }),
+        Duration::from_secs(if thorough { 900 } else { 150 }),
         |c| json!({"case": c.note, "reg": c.reg.describe()}),
         |c, ctx| check_case(c, ctx),
     );
